@@ -6,7 +6,7 @@ import ast
 
 from ..engine.cfg import CFG, walk_fragment
 from ..engine.match import dotted, norm, func_body_stmts, kwarg
-from ..engine.srcmodel import AnalysisError
+from ..engine.srcmodel import AnalysisError, Func
 from ..engine.taint import Taint
 
 EXPLANATION = (
@@ -18,12 +18,15 @@ EXPLANATION = (
     "how statements are stored); the topological sort appends an id only "
     "when it is popped in the finished state, pairs the append with leaving "
     "the visiting set, and pushes dependencies after marking; every ordered "
-    "id is wrapped and appended once, the only skip being no-ops; loops are "
-    "nested in declaration order (first declared outermost) with tuple "
-    "positions 0/1/2 feeding variable/lower/upper bound and the guard placed "
-    "innermost; the guard wrapper puts the condition-free copy of the "
-    "statement in the then slot and an empty node in the else slot, slots "
-    "resolved against the node constructors; the walker has a branch for "
+    "id is wrapped and appended once, the only skip being no-ops; the tree "
+    "built for one statement is decided case by case by symbolic evaluation "
+    "of the lowering helpers (guarded or not x 0/1/2 declared loops x "
+    "assignment or other statement): one conditional around everything, the "
+    "loops in declared order with their own variable and bounds, innermost "
+    "the statement with guard and loops taken off and every other field "
+    "unchanged - whatever style the helpers are written in (recursive, "
+    "iterative, merged); the ordering does not recurse per dependency; the "
+    "walker has a branch for "
     "every node class the simplifier can return and emits begin/body/end in "
     "order; the simplifier's own clauses (shared with C06). Does not decide: "
     "trace equivalence by execution.")
@@ -43,11 +46,6 @@ def _check_main(run, P):
              "with leaving 'visiting'; dependencies pushed after marking", minimum=4)
     run.rule("C05.wrap", "every ordered id is wrapped and appended once; only no-ops "
              "are skipped", minimum=2)
-    run.rule("C05.loops", "loops nested in declaration order, tuple positions feed "
-             "variable/lower/upper; the guard of a looped statement is tested once, "
-             "outside the nest", minimum=6)
-    run.rule("C05.cond", "guard wrapper: condition, condition-free copy in 'then', "
-             "empty node in 'else_'", minimum=3)
     run.rule("C05.walker", "lower_node handles every node class the simplifier "
              "returns and emits begin/body/end in order", minimum=6)
     run.rule("C05.simplify", "the simplifier applied by the lowering keeps polarity, "
@@ -63,8 +61,7 @@ def _check_main(run, P):
     _al(run, "C04.sinks", "C05.sorted", lambda: _c04._sinks(run, P))
     run.do(_topo_wrap, run, P)
     run.do(_no_recursion, run, P)
-    run.do(_loops, run, P)
-    run.do(_cond, run, P)
+    run.do(lowering_table, run, P, "C05.table")
     run.do(_walker, run, P)
     from . import c06
     from .c01 import _alias
@@ -324,6 +321,123 @@ def _same_block(root, a, b):
     return False
 
 
+def lowering_table(run, P, rule):
+    """What create_ast_from_phase builds for one statement, case by case
+    (symbolic evaluation of the lowering helpers): guard or none x 0, 1, 2
+    declared loops x assignment or other statement."""
+    from ..engine import symeval as se
+    from .c06 import _slots
+    if rule not in run.rule_docs:
+        run.rule(rule, "lowering of one statement, case by case (symbolic evaluation): the "
+                 "guard, if any, is one conditional around everything; inside it the loops in "
+                 "declared order, first outermost, each with its own variable and bounds; "
+                 "innermost the statement itself with its guard and loops taken off", minimum=8)
+    f = P.func(f"{MOD}.create_ast_from_phase")
+    entry = None
+    for x in ast.walk(f.node):
+        if isinstance(x, ast.Call) and isinstance(x.func, ast.Attribute) and x.func.attr == "append" \
+                and x.args and isinstance(x.args[0], ast.Call) and isinstance(x.args[0].func, ast.Name):
+            t = P.resolve_name(f, x.args[0].func.id)
+            if isinstance(t, Func) and "ast" in t.name:
+                entry = t
+    if entry is None:
+        raise AnalysisError("create_ast_from_phase: the per-statement lowering call not found")
+    ev = se.Evaluator(P)
+    slots = {c: _slots(P, c) for c in ("ForLoop", "IfThenElse", "IfThen", "StatementWrapper", "Block")}
+
+    def ctor(t):
+        if t[0] == "call" and t[1][0] == "name":
+            cname = t[1][1].split(".")[-1]
+            if cname == "NullASTNode":
+                return cname, {}
+            if cname in slots:
+                d = dict(zip(slots[cname], t[2]))
+                d.update(dict(t[3]))
+                return cname, d
+        return None, None
+
+    def tree(t):
+        c, d = ctor(t)
+        if c == "NullASTNode":
+            return ("null",)
+        if c == "StatementWrapper":
+            return ("leaf", d.get("statement"))
+        if c == "ForLoop":
+            return ("for", d.get("loop_var_name"), d.get("lbound"), d.get("ubound"), tree(d.get("body", se.NONE)))
+        if c in ("IfThenElse", "IfThen"):
+            e = tree(d["else_"]) if "else_" in d else ("null",)
+            return ("if", d.get("condition"), tree(d.get("then", se.NONE)), e)
+        return ("?", se.show(t)[:60])
+
+    COND = ("obj", "guard")
+    L = [("tuple", (("obj", f"var{i}"), ("obj", f"lower{i}"), ("obj", f"upper{i}"))) for i in (1, 2)]
+    cases = []
+    for cond in (("const", True), COND):
+        for nl in (0, 1, 2):
+            cases.append(("Assign", cond, tuple(L[:nl])))
+        cases.append(("other", cond, None))
+    for kind, cond, loops in cases:
+        fields = {"condition": cond, "id": ("obj", "id"), "depends_on": ("obj", "deps"), "@strict": ("const", True)}
+        if kind == "Assign":
+            fields.update(loops=("tuple", loops), lhs=("obj", "lhs"), rhs=("obj", "rhs"),
+                          **{"@classes": ("tuple", (("name", "Assign"), ("name", "Statement")))})
+        else:
+            fields.update(**{"@classes": ("tuple", (("name", "YieldState"), ("name", "Statement")))})
+        st = se.rec("statement", **fields)
+        outs = ev.outcomes(entry, {entry.params[0]: st})
+        case = f"{kind}, {'guarded' if cond == COND else 'unguarded'}" + (
+            f", {len(loops)} loop(s)" if loops is not None else "")
+        bad = None
+        for (k, val), facts in outs:
+            if k != "return":
+                bad = f"raises {val}"
+                break
+            t = tree(val)
+            guards = []
+            while t[0] == "if":
+                if t[3] != ("null",):
+                    bad = "the conditional has a non-empty else part"
+                guards.append(t[1])
+                t = t[2]
+            got_loops = []
+            while t[0] == "for":
+                got_loops.append(("tuple", (t[1], t[2], t[3])))
+                t = t[4]
+            if bad is None and t[0] == "if":
+                bad = "a conditional inside the loop nest (the guard is re-tested in every iteration)"
+            if bad is None and t[0] != "leaf":
+                bad = f"innermost node is {t}"
+            if bad is None:
+                leaf = t[1]
+                want_guards = [COND] if cond == COND else []
+                if guards != want_guards:
+                    bad = f"guards {[se.show(g_) for g_ in guards]}, expected {[se.show(g_) for g_ in want_guards]}"
+                elif tuple(got_loops) != tuple(loops or ()):
+                    bad = "loops " + ", ".join(se.show(x) for x in got_loops) + "; declared " + \
+                        ", ".join(se.show(x) for x in (loops or ()))
+                elif leaf is None or leaf[0] != "rec" or leaf[1] != "statement":
+                    bad = f"the leaf wraps {se.show(leaf) if leaf else '?'}"
+                else:
+                    lc = se.rec_get(leaf, "condition")
+                    ll = se.rec_get(leaf, "loops")
+                    if cond == COND and lc != ("const", True):
+                        bad = "the wrapped statement keeps its guard although the guard is tested outside"
+                    elif loops and ll != ("tuple", ()):
+                        bad = "the wrapped statement keeps its loops although the loop nodes were built"
+                    else:
+                        for fld in ("id", "depends_on", "lhs", "rhs"):
+                            if se.rec_get(leaf, fld) != fields.get(fld):
+                                bad = f"field '{fld}' of the wrapped statement changed"
+            if bad:
+                break
+        run.ob(rule, entry, entry.node, bad is None,
+               construct=f"{entry.name}: {case}" + (f": {bad}" if bad else ""),
+               why="the generators emit exactly this tree: a guard inside the nest is re-tested "
+                   "(and the bounds evaluated) although it is false, loops in another order read "
+                   "a bound before its variable exists, a leaf that keeps its guard or loops is "
+                   "guarded / looped twice by the passes that follow")
+
+
 def _no_recursion(run, P):
     """The ordering of a phase keeps its own stack: the interpreter depth of the
     lowering does not grow with the length of dependency chains."""
@@ -343,177 +457,6 @@ def _no_recursion(run, P):
                "updated a thousand times) is well-formed; a traversal that recurses once per "
                "link ends in RecursionError instead of a program")
 
-
-def _loops(run, P):
-    from .c06 import _ctor_args
-    cands = [(g_, x) for g_ in P.module(MOD).functions.values()
-             if g_.cls is None and g_.parent is None and "to_ast" in g_.name
-             for x in ast.walk(g_.node) if isinstance(x, ast.Call) and dotted(x.func) == "ForLoop"]
-    if len(cands) != 1:
-        raise AnalysisError("lowering of a looped statement: one ForLoop(...) expected in the "
-                            "*_to_ast functions")
-    f, c0 = cands[0]
-    ctor = [c0]
-    slots = _ctor_args(P, ctor[0], "ForLoop")
-    # unpacking
-    unpack = None
-    iterative = None
-    for n in ast.walk(f.node):
-        if isinstance(n, ast.Assign) and isinstance(n.targets[0], ast.Tuple) \
-                and len(n.targets[0].elts) == 3 and "loops" in ast.unparse(n.value):
-            unpack = (n.targets[0], n.value, n)
-        if isinstance(n, ast.For) and isinstance(n.target, ast.Tuple) \
-                and len(n.target.elts) == 3 and "loops" in ast.unparse(n.iter) \
-                and any(x is c0 for x in ast.walk(n)):
-            iterative = n
-            unpack = (n.target, n.iter, n)
-    if unpack is None:
-        raise AnalysisError(f"{f.name}: loop tuple unpacking not found")
-    names = [e.id if isinstance(e, ast.Name) else None for e in unpack[0].elts]
-    for slot, pos in (("loop_var_name", 0), ("lbound", 1), ("ubound", 2)):
-        a = slots.get(slot)
-        ok = isinstance(a, ast.Name) and a.id == names[pos]
-        run.ob("C05.loops", f, a if a is not None else ctor[0], ok,
-               construct=f"ForLoop.{slot} <- loop tuple position {pos}",
-               why="declared bounds and variable must reach the loop node unchanged")
-    if iterative is None:
-        # recursive idiom
-        ok_outer = norm(unpack[1]) == "statement.loops[0]"
-        body = slots.get("body")
-        rec = isinstance(body, ast.Call) and dotted(body.func) == "loop_to_ast_node"
-        rest = any(isinstance(s, ast.Assign) and "statement.copy(loops=statement.loops[1:])"
-                   in ast.unparse(s) for s in func_body_stmts(f.node))
-        arg_ok = rec and isinstance(body.args[0], ast.Name) and any(
-            isinstance(s, ast.Assign) and any(isinstance(t, ast.Name) and t.id == body.args[0].id
-                                              for t in s.targets)
-            and "loops=statement.loops[1:]" in ast.unparse(s.value)
-            for s in func_body_stmts(f.node))
-        run.ob("C05.loops", f, unpack[2], ok_outer and rec and rest and arg_ok,
-               construct="outer ForLoop from loops[0], body = loop_to_ast_node(copy(loops=loops[1:]))",
-               why="the first declared loop must be outermost: a later bound may use "
-                   "an earlier loop variable")
-    else:
-        it = iterative.iter
-        ok = (isinstance(it, ast.Call) and dotted(it.func) == "reversed") or (
-            isinstance(it, ast.Subscript) and isinstance(it.slice, ast.Slice)
-            and norm(it.slice.step or ast.Constant(value=1)) == "-1" and it.slice.lower is None
-            and it.slice.upper is None)
-        # the node being wrapped is the body of the new loop
-        body = slots.get("body")
-        tgt = None
-        for s_ in ast.walk(iterative):
-            if isinstance(s_, ast.Assign) and s_.value is c0 and isinstance(s_.targets[0], ast.Name):
-                tgt = s_.targets[0].id
-        ok = ok and isinstance(body, ast.Name) and body.id == tgt
-        run.ob("C05.loops", f, iterative, ok,
-               construct=f"iterative wrapping: for ... in {norm(it)}",
-               why="wrapping inside-out must walk the loops in reverse, else the first "
-                   "declared loop ends up innermost and a bound that uses an outer "
-                   "loop variable is read before it exists")
-    # loop-free statements (the recursion's base case) go through the guard wrapper
-    param = f.params[0]
-    if iterative is None:
-        base = [r for r in ast.walk(f.node) if isinstance(r, ast.Return)
-                and isinstance(r.value, ast.Call) and dotted(r.value.func) == "conditional_to_ast"
-                and r.value.args and dotted(r.value.args[0]) == param]
-        ok = bool(base)
-        site = base[0] if base else f.node
-    else:
-        body = slots.get("body")
-        seed = None
-        if isinstance(body, ast.Name):
-            for s_ in func_body_stmts(f.node):
-                if isinstance(s_, ast.Assign) and any(isinstance(t, ast.Name) and t.id == body.id
-                                                      for t in s_.targets) \
-                        and not any(x is s_ for x in ast.walk(iterative)):
-                    seed = s_
-        ok = seed is not None and isinstance(seed.value, ast.Call) \
-            and dotted(seed.value.func) == "conditional_to_ast"
-        site = seed if seed is not None else iterative
-    run.ob("C05.loops", f, site, ok,
-           construct="a loop-free statement is lowered by conditional_to_ast(<statement>)",
-           why="wrapped without the guard helper, a guarded statement runs although "
-               "its guard is false")
-    # a guarded statement with loops: the guard is tested once, outside the nest
-    from ..engine.cfg import CFG, walk_fragment
-    from ..engine.match import leaves_with, terminal
-    g = CFG(f.node)
-    gtests = []
-    for n in g.nodes:
-        if n.kind == "test" and norm(n.ast) == f"{param}.condition is not True":
-            t = terminal(n.label.body)
-            if isinstance(t, ast.Return) and isinstance(t.value, ast.Call) \
-                    and dotted(t.value.func) in ("IfThenElse", "IfThen") and len(t.value.args) >= 2 \
-                    and norm(t.value.args[0]) == f"{param}.condition":
-                inner = t.value.args[1]
-                arg = inner.args[0] if isinstance(inner, ast.Call) and inner.args else None
-                if isinstance(arg, ast.Name):
-                    for s_ in n.label.body:
-                        if isinstance(s_, ast.Assign) and any(dotted(t_) == arg.id for t_ in s_.targets):
-                            arg = s_.value
-                if isinstance(inner, ast.Call) and dotted(inner.func) == "loop_to_ast_node" \
-                        and arg is not None and norm(arg) == f"{param}.copy(condition=True)" \
-                        and (len(t.value.args) == 2 or dotted(t.value.args[2].func
-                                                             if isinstance(t.value.args[2], ast.Call)
-                                                             else t.value.args[2]) == "NullASTNode"):
-                    gtests.append(n)
-    loops_built = [n for n in g.nodes if n.ast is not None and n.kind == "stmt" and any(
-        x is ctor[0] for x in walk_fragment(n.ast))]
-    ok = bool(gtests) and bool(loops_built) and not g.always_preceded(loops_built, gtests)
-    # (C05.wrap pins the caller to `append(loop_to_ast_node(<statement>))`, so the guard
-    # of a looped statement can only be applied inside this function)
-    run.ob("C05.loops", f, gtests[0].ast if gtests else f.node, ok,
-           construct="guarded statement with loops: IfThenElse(condition, <loop nest of the "
-                     "condition-free copy>, empty) - the test dominates every ForLoop built",
-           why="the interpreter tests the guard once and only then evaluates the loop "
-               "bounds; with the loops outside, generated code evaluates bounds that are "
-               "only defined when the guard holds (UnboundLocalError where the "
-               "interpreter completes the step) and re-tests the guard on every iteration")
-    top = [n for n in ast.walk(f.node) if isinstance(n, ast.If)
-           and f"{param}.loops" in ast.unparse(n.test)]
-    run.ob("C05.loops", f, top[0] if top else f.node, bool(top),
-           construct="statements without loops go straight to the guard wrapper",
-           why="dispatch on the presence of loops")
-
-
-def _cond(run, P):
-    from .c06 import _ctor_args
-    f = P.func(f"{MOD}.conditional_to_ast")
-    ctor = [x for x in ast.walk(f.node) if isinstance(x, ast.Call)
-            and dotted(x.func) in ("IfThenElse", "IfThen")]
-    if len(ctor) != 1:
-        raise AnalysisError("conditional_to_ast: one if-node constructor expected")
-    kind = dotted(ctor[0].func)
-    slots = _ctor_args(P, ctor[0], kind)
-    run.ob("C05.cond", f, ctor[0], norm(slots.get("condition")) == "statement.condition",
-           construct=f"{kind}.condition <- statement.condition",
-           why="the node must test the statement's own guard")
-    then = slots.get("then")
-    copy_ok = any(isinstance(s, ast.Assign) and
-                  norm(s.value) == "statement.copy(condition=True)" and
-                  isinstance(then, ast.Call) and then.args and
-                  dotted(then.args[0]) == dotted(s.targets[0])
-                  for s in func_body_stmts(f.node))
-    run.ob("C05.cond", f, then if then is not None else ctor[0], copy_ok,
-           construct=f"{kind}.then <- wrapper(statement.copy(condition=True))",
-           why="the guarded statement sits in the then arm; its own condition is "
-               "reset so the guard is expressed exactly once")
-    if kind == "IfThenElse":
-        e = slots.get("else_")
-        ok = isinstance(e, ast.Call) and dotted(e.func) == "NullASTNode"
-    else:
-        ok = True
-    run.ob("C05.cond", f, ctor[0], ok,
-           construct="else arm is empty",
-           why="nothing runs when the guard is false")
-    from .util import split_by
-    t_, wt_, wf_ = split_by(f.node, lambda t: t == "statement.condition is not True")
-    test = [n for n in ast.walk(f.node) if isinstance(n, ast.If)]
-    ok = t_ is not None and any("statement_to_ast(statement)" in ast.unparse(s_)
-                                and isinstance(s_, ast.Return) for s_ in wf_)
-    run.ob("C05.cond", f, test[0] if test else f.node, ok,
-           construct="unguarded statements are wrapped directly",
-           why="condition True means unconditional")
 
 
 def _walker(run, P):
